@@ -69,6 +69,47 @@ NEAR_MISSES = [
 ]
 
 
+NUM_GLUE = ["e3", "E2", "e-3", "e+2", "E+05", "e", "L", "j", "f", "d", "_0", "_000", "x10", ".", ".5", "..", "%", "n", "px", "k", "'", "h"]
+NUM_PRE = ["+", ".", "0x", "0b", "$", "#", "~", "--"]
+STR_PRE = ["r", "b", "f", "u", "rb", "R", "@", "$"]
+STR_POST = ["s", "x", ".x", "[0]", "%", "!"]
+ID_POST = [".x", "$", "?", "!", "[0]", "()", "'", "-y", ".0", "::b", "@x"]
+OP_GLUE = {"==": ["=", "!"], "!=": ["="], ">": [">", "<"], "<": ["<", ">", "-"], ">=": ["=", ">"], "<=": ["=", ">"], ":": [":", "="], ",": [","], "-": ["-", "+"]}
+
+
+def glue_cases(ctx, n):
+    """lexeme-level near misses: a fragment glued to a token with NO white space in between — the fragment that a
+    widened token pattern would swallow (an exponent or a suffix after a number, a prefix letter before a string, a
+    selector after an identifier, one more operator character)"""
+    rng = ctx.rng
+    out, seen = [], set()
+    tries = 0
+    while len(out) < n and tries < 20 * n:
+        tries += 1
+        prog = gen.gen_program(rng, gen.GenOpts(max_depth=rng.choice([0, 1]), max_chain=1, max_pred_depth=1, ident_pool=gen.PLAIN_IDENTS, max_nodes=5))
+        toks = list(gen.program_tokens(prog))
+        idx = [i for i, t in enumerate(toks) if t]
+        i = rng.choice(idx)
+        t = toks[i]
+        if t[0].isdigit():
+            new = t + rng.choice(NUM_GLUE) if rng.random() < 0.8 else rng.choice(NUM_PRE) + t
+        elif t[0] in "\"'":
+            new = rng.choice(STR_PRE) + t if rng.random() < 0.5 else t + rng.choice(STR_POST)
+        elif t in OP_GLUE:
+            new = t + rng.choice(OP_GLUE[t]) if rng.random() < 0.7 else rng.choice(OP_GLUE[t]) + t
+        elif t[0].isalpha() or t[0] == "_":
+            new = t + rng.choice(ID_POST)
+        else:
+            continue
+        toks[i] = new
+        text = gen.join_tokens(toks)
+        if text in seen:
+            continue
+        seen.add(text)
+        out.append(("glue", text))
+    return out
+
+
 def impl_compile(text):
     from pyab_experiment.experiment_evaluator import ExperimentEvaluator
     from pyab_experiment.utils.wraper_functions import parse_source
@@ -133,8 +174,8 @@ def run(ctx):
                          "operator, double mutation) of generated experiments, de-duplicated by text, classified by an "
                          "independent recogniser of the documented grammar; every mutant counts as non-trivial")
     ctx.extra["table_obligations"] = 3
-    run_stream(ctx, [("near-miss", t) for t in NEAR_MISSES] + make_cases(ctx, n))
+    run_stream(ctx, [("near-miss", t) for t in NEAR_MISSES] + glue_cases(ctx, max(300, n // 8)) + make_cases(ctx, n))
 
 
 def search(ctx):
-    run_stream(ctx, make_cases(ctx, 6000), with_model=False)
+    run_stream(ctx, glue_cases(ctx, 1500) + make_cases(ctx, 6000), with_model=False)
